@@ -255,7 +255,14 @@ func TestVerif_C19_UseLimit(t *testing.T) {
 		// all m > n requests are done: the token must be dead now
 		before := len(hub.handlerCalls())
 		post := tc.req(logical.ReadOperation, "rb/echo/after", tok, nil)
-		if post.ok() || len(hub.handlerCalls()) != before {
+		postReached := false
+		for _, c := range hub.handlerCalls()[before:] {
+			// revocations / rollbacks of background workers may arrive meanwhile; only the probe itself counts
+			if c.Path == "echo/after" && !c.Revoke && !c.Renew {
+				postReached = true
+			}
+		}
+		if post.ok() || postReached {
 			rec.Violation(rt, "alive-after-uses", describe(), "token still authorises a request after %d requests with num_uses=%d", m, n)
 		}
 		// revocation of the exhausted token and of its leases is queued for the expiration workers: bounded wait
